@@ -40,6 +40,14 @@ query Search { search { __typename ... on User { name } ... on Org { title } } }
 mutation Touch($id: ID!) { touch(id: $id) }
 '''
 
+# operations that walk through the invalid part of an invalid schema (the default operation only asks for __typename)
+INVALID_SCHEMA_OPS = {
+    "interface-field-missing+op": "query Q { a { id name ... on T { email } } }",
+    "interface-field-type-mismatch+op": "query Q { a { a ... on T { a } } }",
+    "duplicate-enum-value+op": "query Q($e: E) { a(e: $e) }",
+    "empty-object+op": "query Q { a { __typename } }",
+}
+
 BASE_CLIENT = "import httpx\n\n\nclass MyBaseClient:\n    def __init__(self, url='', http_client=None):\n        self.url = url\n"
 
 # ---- invalid operations: (label = targeted rule, queries text)
@@ -112,6 +120,10 @@ INVALID_SCHEMAS = [
     ("required-arg-deprecated", "type Query { a(x: Int! @deprecated): Int }"),
     ("required-input-field-deprecated", "type Query { a(x: I): Int } input I { a: Int! @deprecated }"),
     ("directive-unknown-arg-type", "type Query { a: Int } directive @d(x: Missing) on FIELD"),
+    ("interface-field-missing+op", "type Query { a: I } interface I { id: ID name: String } type T implements I { id: ID email: String }"),
+    ("interface-field-type-mismatch+op", "type Query { a: I } interface I { a: Int } type T implements I { a: String }"),
+    ("duplicate-enum-value+op", "type Query { a(e: E): E } enum E { A A }"),
+    ("empty-object+op", "type Query { a: Empty } type Empty"),
     ("same-root-for-query-and-mutation-ok-but-missing-type", "schema { query: Query mutation: Missing } type Query { a: Int }"),
 ]
 
@@ -415,7 +427,7 @@ def worker(case: Dict[str, Any]) -> CaseResult:
             if not errs:
                 return CaseResult("inconclusive", note="harness: schema %s is not invalid for graphql-core" % label, stats={"fault_not_confirmed": 1})
             if strategy == "client":
-                queries = "query Q { __typename }"
+                queries = INVALID_SCHEMA_OPS.get(label, "query Q { __typename }")
         elif kind == "collision":
             queries = QUERIES + "\nquery %s { node { id } }\n" % label
             expected_classes = ("ParsingError",)
@@ -603,6 +615,12 @@ VALID = [("unknown-keys-nested", "client"), ("headers-dollar-inside", "client"),
          ("plain", "client"), ("plain", "graphqlschema")]
 
 
+try:
+    KNOWN_INVALID_SCHEMA_OUTCOMES = json.load(open(os.path.join(os.path.dirname(os.path.abspath(__file__)), "c17_invalid_schema_outcomes.json")))
+except OSError:
+    KNOWN_INVALID_SCHEMA_OUTCOMES = {}
+
+
 def schema_mechanism(label: str) -> str:
     return "invalid-schema-not-rejected"
 
@@ -622,16 +640,24 @@ def run(tier: str, seed: int) -> int:
         for v in res.violations:
             m = v.get("mech", "")
             if ":schema:" in m or m.endswith(tuple("schema:" + l for l, _ in INVALID_SCHEMAS)):
-                v["mech"] = "invalid-schema-not-rejected-with-typed-error"
+                # the listed finding covers what the unchanged tree does with each invalid schema (recorded per schema and strategy in
+                # c17_invalid_schema_outcomes.json: accepted / which untyped exception / which side effects); any OTHER outcome for the same schema is new
+                key = "%s/%s" % (case.get("label"), case.get("strategy"))
+                if "%s|%s" % (v.get("clause"), m) in KNOWN_INVALID_SCHEMA_OUTCOMES.get(key, ()):
+                    v["mech"] = "invalid-schema-not-rejected-with-typed-error"
+                else:
+                    v["mech"] = "c17:invalid-schema-outcome-not-the-listed-one:" + m
         r.add(case, res)
         for f in res.sets.get("faults", []):
             r.mark_distinct(f)
 
     core.run_forked(cases, worker, timeout_s=120, on_result=on_result)
     vcases = [{"label": l, "strategy": s} for l, s in VALID]
-    for c, res in zip(vcases, core.run_forked(vcases, valid_worker, timeout_s=120)):
+    def on_valid(c, res):
         r.add(c, res)
         r.mark_distinct("valid/" + c["label"] + "/" + c["strategy"])
+
+    core.run_forked(vcases, valid_worker, timeout_s=120, on_result=on_valid)
     r.exhaustive = True
     return r.finish()
 
